@@ -19,7 +19,9 @@ FA == "a.thrift"
 FB == "sub/b.thrift"
 FC == "c.thrift"
 BaseProg ==
-  (FA :> [structs |-> ("S" :> << Fd(1, "x", "i32", TRUE), Fd(2, "y", "string", FALSE) >>) @@ ("T" :> << Fd(1, "z", "list<i32>", FALSE) >>) @@ ("R" :> << Fd(1, "r", "i32", FALSE) >>),
+  (FA :> [structs |-> ("S" :> << Fd(1, "x", "i32", TRUE), Fd(2, "y", "string", FALSE) >>) @@ ("T" :> << Fd(1, "z", "list<i32>", FALSE) >>) @@ ("R" :> << Fd(1, "r", "i32", FALSE) >>)
+                      \* V is rendered as a union (no required fields), E as an exception
+                      @@ ("V" :> << Fd(1, "va", "i32", FALSE), Fd(2, "vb", "string", FALSE) >>) @@ ("E" :> << Fd(1, "why", "string", FALSE) >>),
           services |-> ("K" :> {"f", "g"})])
   @@ (FB :> [structs |-> ("U" :> << Fd(1, "u", "i64", FALSE) >>) @@ ("R" :> << Fd(1, "r", "i32", FALSE) >>), services |-> ("L" :> {"h"}) @@ ("M" :> {"p"})])
 
@@ -43,13 +45,13 @@ Edit ==
   /\ \/ \E f \in DOMAIN new : \E st \in DOMAIN new[f].structs :
           LET fs == new[f].structs[st] IN
           \/ \E id \in {3, 7}, ty \in {"i32", "R"}, rq \in BOOLEAN :                 \* add a field (optional: compatible; required: breaking)
-                ~HasId(fs, id) /\ SetStruct(f, st, Append(fs, Fd(id, "n" \o ToString(id), ty, rq)))
-          \/ \E i \in 1..Len(fs) : ~fs[i].req /\ SetStruct(f, st, [fs EXCEPT ![i].req = TRUE])    \* optional -> required
+                ~HasId(fs, id) /\ (rq => st # "V") /\ SetStruct(f, st, Append(fs, Fd(id, "n" \o ToString(id), ty, rq)))
+          \/ \E i \in 1..Len(fs) : ~fs[i].req /\ st # "V" /\ SetStruct(f, st, [fs EXCEPT ![i].req = TRUE])    \* optional -> required
           \/ \E i \in 1..Len(fs) : fs[i].req /\ SetStruct(f, st, [fs EXCEPT ![i].req = FALSE])    \* required -> optional
           \/ \E i \in 1..Len(fs), ty \in Types : ty # fs[i].ty /\ SetStruct(f, st, [fs EXCEPT ![i].ty = ty])   \* type changed
           \/ \E i \in 1..Len(fs) : SetStruct(f, st, SubSeq(fs, 1, i - 1) \o SubSeq(fs, i + 1, Len(fs)))           \* field removed
           \/ Len(fs) >= 2 /\ SetStruct(f, st, << fs[Len(fs)] >> \o SubSeq(fs, 1, Len(fs) - 1))                    \* fields reordered
-          \/ st # "R" /\ new' = [new EXCEPT ![f].structs = KeepKeys(@, DOMAIN @ \ {st})]                          \* struct deleted
+          \/ st \notin {"R", "V", "E"} /\ new' = [new EXCEPT ![f].structs = KeepKeys(@, DOMAIN @ \ {st})]                          \* struct deleted
      \/ \E f \in DOMAIN new : "N" \notin DOMAIN new[f].structs /\ SetStruct(f, "N", << Fd(1, "q", "i32", TRUE) >>)  \* new struct (even with a required field)
      \/ \E f \in DOMAIN new : \E s \in DOMAIN new[f].services :
           \/ \E m \in new[f].services[s] : SetSvc(f, s, new[f].services[s] \ {m})                                   \* method removed
